@@ -82,7 +82,7 @@ def run(ctx):
     ctx.cov.update({
         "obligations": pr["obligations"] if pr else 0,
         "discharged": pr["discharged"] if pr else 0,
-        "property_theorems": ["C16_roundtrip", "C16_assemble_total", "C16_qm31_rejected", "C16_step_sound", "C16_run_sound", "C16_program_run_sound", "C16_program_example", "C16_step_writes_fresh", "C16_step_commit_total",
+        "property_theorems": ["C16_roundtrip", "C16_assemble_total", "C16_qm31_rejected", "C16_step_sound", "C16_run_sound", "C16_trace_compose", "C16_program_run_sound", "C16_program_example", "C16_step_writes_fresh", "C16_step_commit_total",
                               "C16_example", "C16_step_example", "C16_run_example"],
         "print_assumptions": (pr or {}).get("axioms", []),
         "evaluations": n_cases,
